@@ -19,7 +19,7 @@ for i in claimed:
         technique=P.get("technique", "Lean 4 proof + model/implementation correspondence")))
 M = dict(
     version=1,
-    setup_cmd="cd /verif/lean && lake build Exmex driver && cd /verif/harness && (cp -n /repo/Cargo.lock . ; CARGO_NET_OFFLINE=true cargo build --release --offline)",
+    setup_cmd="cd /verif/lean && lake build Exmex driver && cd /verif/harness && (cp -n /repo/Cargo.lock . ; CARGO_NET_OFFLINE=true cargo build --release --offline --bin exmex-verif-harness && CARGO_NET_OFFLINE=true cargo build --release --offline --bin exmex-verif-threads --features threads)",
     hooks=dict(guard="exmex_verif",
                enable="RUSTFLAGS='--cfg exmex_verif' (set in /verif/harness/.cargo/config.toml; the harness depends on /repo by path)",
                baseline_off_cmd="cd /repo && cargo test --workspace --no-fail-fast --offline",
